@@ -2,7 +2,10 @@
 
 package txpool
 
-import "github.com/oasisprotocol/oasis-core/go/common/crypto/hash"
+import (
+	"github.com/oasisprotocol/oasis-core/go/common/crypto/hash"
+	"github.com/oasisprotocol/oasis-core/go/runtime/host/protocol"
+)
 
 // VerifScheduler exposes the package-private main queue scheduler to the
 // verification harness (build tag "verif" only).
@@ -49,3 +52,46 @@ func (v *VerifScheduler) Size() int { return v.s.size() }
 
 // Has reports whether a transaction with the given hash is in the scheduler.
 func (v *VerifScheduler) Has(h hash.Hash) bool { _, ok := v.s.get(h); return ok }
+
+// VerifMainQueue exposes the package-private main queue (the mutex-guarded
+// wrapper around the scheduler that the transaction pool itself uses) to the
+// verification harness (build tag "verif" only).
+type VerifMainQueue struct {
+	q *mainQueue
+}
+
+// VerifNewMainQueue creates a main queue with the given capacity.
+func VerifNewMainQueue(capacity int) *VerifMainQueue {
+	return &VerifMainQueue{q: newMainQueue(capacity)}
+}
+
+// Add adds a transaction with the given runtime check result.
+func (v *VerifMainQueue) Add(tx *TxQueueMeta, sender string, seq, priority, stateSeq uint64) error {
+	return v.q.Add(tx, &protocol.CheckTxMetadata{
+		Priority:       priority,
+		Sender:         []byte(sender),
+		SenderSeq:      seq,
+		SenderStateSeq: stateSeq,
+	})
+}
+
+// Schedule starts a new scheduling pass.
+func (v *VerifMainQueue) Schedule(limit int) []*TxQueueMeta { return v.q.Schedule(limit) }
+
+// ScheduleExtra continues the ongoing scheduling pass.
+func (v *VerifMainQueue) ScheduleExtra(limit int) []*TxQueueMeta { return v.q.ScheduleExtra(limit) }
+
+// HandleTxsUsed removes used transactions and forwards their senders.
+func (v *VerifMainQueue) HandleTxsUsed(hashes []hash.Hash) { v.q.HandleTxsUsed(hashes) }
+
+// Get returns the transaction with the given hash.
+func (v *VerifMainQueue) Get(h hash.Hash) (*TxQueueMeta, bool) { return v.q.Get(h) }
+
+// Drain removes and returns all transactions.
+func (v *VerifMainQueue) Drain() []*TxQueueMeta { return v.q.Drain() }
+
+// All returns all transactions.
+func (v *VerifMainQueue) All() []*TxQueueMeta { return v.q.All() }
+
+// Size returns the number of transactions.
+func (v *VerifMainQueue) Size() int { return v.q.Size() }
